@@ -185,8 +185,21 @@ fn explore_cfg(c: &Cfg, ctx: &Ctx, rep: &mut Report, idx: &mut u64, max_level: u
     if c.n >= 3 && ctx.mine(*idx + c.k as u64) {
         let a = &known[&built[&vec![0usize]]].2;
         let b = &known[&built[&vec![2usize, 1]]].2;
-        let o = cli::run(&["merge", a, b, "-o", "ab"], &dir, None);
         let want = model_table(c, &[0, 2, 1]);
+        // the merge command line in each of the four argument layouts (options first / between the inputs / last)
+        for layout in 0..4usize {
+            rep.evaluations += 1;
+            let _ = std::fs::remove_file(format!("{dir}/abl.skf"));
+            cli::set_layout(layout);
+            let o = cli::run(&["merge", a, b, "-o", "abl"], &dir, None);
+            cli::set_layout(cli::AUTO_LAYOUT);
+            let got = FileState::read(&format!("{dir}/abl.skf"));
+            if o.code != 0 || got.as_ref().map(|g| &g.table) != Ok(&want) {
+                rep.violate(format!("{label} cli merge layout {layout}"), format!("ska merge of [s0] and [s2,s1] with the arguments in layout {layout} ({:?}): exit {}, {}", cli::rearranged(&["merge", "a.skf", "b.skf", "-o", "out"], layout), o.code, if got.is_ok() { "table differs from the joint table" } else { "no readable output" }), json!({"label": label, "cli": "merge s0 + [s2,s1]", "layout": layout}));
+            }
+            rep.corner("merge_argument_layouts");
+        }
+        let o = cli::run(&["merge", a, b, "-o", "ab"], &dir, None);
         let got = FileState::read(&format!("{dir}/ab.skf"));
         if o.code != 0 || got.as_ref().map(|g| &g.table) != Ok(&want) {
             rep.violate(format!("{label} cli merge"), "ska merge of [s0] and [s2,s1] differs from the joint table".into(), json!({"label": label, "cli": "merge s0 + [s2,s1]"}));
